@@ -512,6 +512,15 @@ func S(key string) string { return "s:" + key }
 func K(text string) string { return "c:" + text }
 
 func (e *OracleEnv) Eq(a, b string) bool        { return e.ch.eqStr(a, b) }
+
+// Pred mirrors the model of strings.Contains/HasPrefix/HasSuffix/EqualFold
+// over two symbolic strings: true when the strings are equal, else the atom.
+func (e *OracleEnv) Pred(name, a, b string) bool {
+	if a == b || e.ch.eqStr("s:"+a, "s:"+b) {
+		return true
+	}
+	return e.Bool(name + "(" + a + "," + b + ")")
+}
 func (e *OracleEnv) Cmp(a, b string) int        { return e.ch.cmpTime(a, b) }
 func (e *OracleEnv) IsZero(a string) bool       { return e.ch.isZeroTime(a) }
 func (e *OracleEnv) Decided(key string) bool    { _, ok := e.ch.memo[key]; return ok }
